@@ -161,17 +161,19 @@ def check(repo: Repo, rep: Report) -> None:
     rn = repo.fn(EL, "EventLoopScheduler.run")
     from ..astutil import compare_norm as _cn
     stops = []
+    clocks = {u(n_.targets[0]) for n_ in rn.direct_nodes() if isinstance(n_, ast.Assign) and isinstance(n_.value, ast.Attribute) and n_.value.attr == "now"}
+    is_clock = lambda y: (isinstance(y, ast.Name) and y.id in clocks) or (isinstance(y, ast.Attribute) and y.attr == "now")
+    from ..rules import effective_test as _et
     for x in sites(rn):
         if isinstance(x.node, ast.Break):
             for e, p_ in x.ctx.guards:
-                if p_ and isinstance(e, ast.Compare) and len(e.ops) == 1 and any(isinstance(y, ast.Name) and y.id in ("time", "now") or u(y).endswith(".now") for y in (e.left, e.comparators[0])):
+                e = _et(rn, e) if isinstance(e, ast.Name) else e
+                if p_ and isinstance(e, ast.Compare) and len(e.ops) == 1 and any(is_clock(y) for y in (e.left, e.comparators[0])):
                     stops.append((x, e))
     okb = False
     for x, e in stops:
-        l, r = e.left, e.comparators[0]
         opn = type(e.ops[0]).__name__
-        time_left = (isinstance(l, ast.Name) and l.id in ("time", "now")) or u(l).endswith(".now")
-        if time_left:
+        if is_clock(e.left):
             opn = {"Lt": "Gt", "LtE": "GtE", "Gt": "Lt", "GtE": "LtE"}.get(opn, opn)
         okb = okb or opn == "Gt"
     rep.ob("E1-eventloop-guards", rn, f"run(): gathering stops at the first item with `due > now` (strict) ({[short(e, 30) for _, e in stops]})", bool(stops) and okb,
